@@ -39,3 +39,8 @@ Theorem RealInv_step_real tab_el tab_en check_fn LATEST root_attrs o w r w' :
   RealInv RT w -> Inv.Known_failed_reparent RT tab_el tab_en check_fn LATEST root_attrs w o = false ->
   Inv.run RT tab_el tab_en check_fn LATEST root_attrs o w = Val (r, w') -> RealInv RT w'.
 Proof. apply RealInv_step. exact RefChars_real. Qed.
+
+Theorem RealInv_histories_real tab_el tab_en check_fn LATEST root_attrs l w w' :
+  RealInv RT w -> Inv.clean_rep_ops RT tab_el tab_en check_fn LATEST root_attrs l w = true ->
+  Inv.run_ops RT tab_el tab_en check_fn LATEST root_attrs l w = Val w' -> RealInv RT w'.
+Proof. apply RealInv_histories. exact RefChars_real. Qed.
